@@ -64,7 +64,7 @@ def listing(g, n, decorate=True):
     if decorate:
         lines += [{"k": "blank"}, {"k": "header", "name": "a.out", "format": "elf64-x86-64"}, {"k": "blank"}, {"k": "blank"},
                   {"k": "sect", "name": ".text"}, {"k": "blank"}]
-    addr = g.pick([0, 0x1000, 0x401000, g.int(0, 0xffffff)])
+    addr = g.pick([0, 0x1000, 0x401000, g.int(0, 0xffffff), 0x7ffff7dd1000, 0xffffffff81000000, 9, 0xf])
     if decorate:
         lines.append({"k": "label", "addr": "%016x" % addr, "name": "f"})
     for _ in range(n):
